@@ -44,3 +44,11 @@ CLAIMED["C19"] = (
     "Trusted: A-sly (sly builds the parser the grammar strings and precedence denote and calls exactly the action of each production), A-enc, "
     "A-smt. Symbol tables, sources, key blobs and the remaining statement actions are covered by the bounded seeded-program sweep only.",
     "DESIGN.md 7 C19")
+CLAIMED["C17"] = (
+    "Ghost contract on the random generator (each draw happens at a new tick) and, on every constructor that may invent a secret "
+    "(SBV2xAdvancedParams, OTFAD KeyBlob, BEE KIB, the MBI counter-IV accessor, random_bytes itself), the postcondition 'if the caller gave "
+    "none, the field holds a value drawn during this call' — discharged from the real constructor bodies; data obligations state that the "
+    "BootImageV20/V21 default for advanced_params and the MBI class-level member are not definition-time objects. IEE/BEE region/HAB "
+    "constructors and the config-file paths are covered only by the bounded two-artifact comparison and the definition-time randomness scan.",
+    "Trusted: A-rng (the OS generator is fresh per call and per process; nothing is claimed across interpreter restarts beyond that), A-enc, A-smt.",
+    "DESIGN.md 7 C17")
